@@ -366,6 +366,13 @@ var Schemas = []Schema{
 	{"stmt-ctx-dots-reused-twice-on-plus", func(g *G) *Change {
 		return &Change{Kind: "stmts", Meta: mv("x", "expression"), Lines: lines("+before(‹1:args›)", " tgtCall(«x», ‹1:args›)", "+after(‹1:args›, «x»)")}
 	}},
+	// context lines whose Go code begins with a unary sign (the diff marker is the first column only)
+	{"expr-ctx-lines-starting-with-a-sign", func(g *G) *Change {
+		return &Change{Kind: "expr", Meta: mv("s", "expression", "o", "expression"), Lines: lines("-tgtReplace(", "+replReplace(", "   «s»,", "   -1,", "   +«o»,", "   -«s»,", " )")}
+	}},
+	{"stmt-ctx-lines-starting-with-a-sign", func(g *G) *Change {
+		return &Change{Kind: "stmts", Meta: mv("v", "identifier", "x", "expression"), Lines: lines(" «v» := tgtSum(", "   -«x»,", "   +1,", " )", "-use(«v»)", "+use(«v», -1)")}
+	}},
 	// expression patterns of fixed shape
 	{"expr-ident-rename", func(g *G) *Change {
 		return &Change{Kind: "expr", Lines: lines("-oldName", "+newName")}
@@ -427,6 +434,13 @@ var Schemas = []Schema{
 	}},
 	{"decl-func-nparams", func(g *G) *Change {
 		return &Change{Kind: "decl", Meta: mv("f", "identifier", "r", "identifier"), Lines: lines(" func «f»(", "+   ctx Ctx,", "    ‹1:nparams›,", "    «r» *TgtReq,", "    ‹2:nparams›,", " ) error {", "+   «r» = «r».With(ctx)", "    ‹3:stmts›", " }")}
+	}},
+	{"decl-func-remove-named-param", func(g *G) *Change {
+		// the '-' side has a named parameter, the '+' side only the elision
+		return &Change{Kind: "decl", Meta: mv("f", "identifier"), Lines: lines(" func «f»(", "-   tgtCtx TgtContext,", "    ‹1:nparams›,", " ) error {", "    ‹2:stmts›", " }")}
+	}},
+	{"decl-func-remove-named-result", func(g *G) *Change {
+		return &Change{Kind: "decl", Meta: mv("f", "identifier"), Lines: lines(" func «f»(‹1:params›) (", "-   tgtN TgtCount,", "    ‹2:nparams›,", " ) {", "    ‹3:stmts›", " }")}
 	}},
 	{"decl-func-recv", func(g *G) *Change {
 		return &Change{Kind: "decl", Meta: mv("t", "identifier", "T", "expression"), Lines: lines(" func («t» *«T») TgtString() string {", "+  if «t» == nil {", "+    return \"<nil>\"", "+  }", "   ‹1:stmts›", " }")}
